@@ -457,6 +457,9 @@ class Session:
                 if not nu["negative"]:
                     self.viol("alphabet|minus-held-but-negatives-not-allowed", f"text={t!r}")
                     return False
+                if t.count("-") > 1:
+                    self.viol("alphabet|more-than-one-minus", f"text={t!r}")
+                    return False
                 if i != 0:
                     self.viol("alphabet|minus-not-leading", f"text={t!r}")
                     return False
